@@ -274,7 +274,7 @@ impl Gen {
                                                  libc::FALLOC_FL_INSERT_RANGE, libc::FALLOC_FL_PUNCH_HOLE | libc::FALLOC_FL_ZERO_RANGE, 0x80]);
                         if n >= 0 && self.nodes[n as usize].size >= 4096 && self.rng.chance(2, 3) {
                             // block-aligned ranges: where collapse / insert range are possible at all
-                            return json!({"op": "fallocate", "n": n, "h": h, "mode": m, "off": *self.rng.pick(&[0u64, 4096]), "len": 4096});
+                            return json!({"op": "fallocate", "n": n, "h": h, "mode": m, "off": *self.rng.pick(&[0u64, 4096, 4096, 8192]), "len": 4096});
                         }
                         json!({"op": "fallocate", "n": n, "h": h, "mode": m, "off": off, "len": *self.rng.pick(&[0u64, 1, 2, 3, 4, 8, 12])})
                     }
@@ -295,11 +295,16 @@ impl Gen {
                         h = c;
                     }
                 }
-                let which = self.rng.below(if seal { 4 } else { 7 });
+                let which = if !seal && self.rng.chance(1, 4) { 3 } else { self.rng.below(if seal { 4 } else { 7 }) };
                 let (valid, attr) = match which {
                     0 | 1 => (json!(["SIZE"]), json!({"size": *self.rng.pick(&[0u64, 1, 3, 8, 12, 15, 20])})),
                     2 => (json!(["MODE"]), json!({"mode": *self.rng.pick(MODES)})),
-                    3 => (json!(["MTIME", "ATIME"]), json!({"atime": 1000000 + self.rng.below(1000), "mtime": 2000000 + self.rng.below(1000)})),
+                    3 => {
+                        // explicit times: distinct seconds and distinct non-zero nanoseconds for the two; every combination of
+                        // explicit / now / untouched
+                        let v = *self.rng.pick(&[&["ATIME", "MTIME"][..], &["MTIME"][..], &["ATIME"][..], &["ATIME", "MTIME", "MTIME_NOW"][..], &["ATIME", "ATIME_NOW", "MTIME"][..]]);
+                        (json!(v), json!({"atime": 1000000 + self.rng.below(1000), "atime_ns": 111000000 + self.rng.below(1000), "mtime": 2000000 + self.rng.below(1000), "mtime_ns": 222000000 + self.rng.below(1000)}))
+                    }
                     4 => (json!(["UID", "GID"]), json!({"uid": *self.rng.pick(&[0u32, 1000, 1001]), "gid": *self.rng.pick(&[0u32, 1000, 1001])})),
                     5 => (json!(["UID"]), json!({"uid": *self.rng.pick(&[0u32, 1000, 1001])})),
                     _ => (json!(["MODE", "SIZE"]), json!({"mode": *self.rng.pick(MODES), "size": *self.rng.pick(&[0u64, 5, 9])})),
